@@ -77,6 +77,13 @@ def gen_terminal_list(rng, cat, length, max_groups, max_vals, mode):
         vals = _values(rng, cat, length, nv, used)
         for v in vals:
             items.append([v, p])
+    if items and cat == 'O' and rng.random() < 0.2:
+        # U+FEFF is an ordinary character of a value: as the first character of the first line of a file it must not be taken
+        # for a byte order mark
+        v = '\ufeff' + items[0][0][1:]
+        if v not in used:
+            used.add(v)
+            items[0][0] = v
     if not items:
         items.append([_values(rng, cat, length, 1, set())[0] if cat not in 'C' else 'L' * length, probs[0]])
     return items
@@ -126,7 +133,8 @@ def gen_ruleset(rng, max_structs=4, max_pos=4, max_groups=4, max_vals=3, mode=No
     if markov:
         pos = rng.randint(0, len(grammar))
         grammar.insert(pos, ['M', rng.choice(DYADIC)])
-        lv = _strictly_decreasing_probs(rng, rng.randint(1, 3), 'dyadic')
+        # deep OMEN levels have probabilities (level share / keyspace) far below 2**-52: distinct values closer than any tolerance
+        lv = _strictly_decreasing_probs(rng, rng.randint(1, 3), 'close' if (mode == 'close' or rng.random() < 0.15) else 'dyadic')
         levels = rng.sample(range(1, 6), len(lv))
         omen_prob = [[str(l), p] for l, p in zip(levels, lv)]
     spec = {'encoding': encoding, 'terminals': terminals, 'grammar': grammar, 'omen_prob': omen_prob,
